@@ -17,20 +17,23 @@ import (
 
 // wireWriter is the underlying http.ResponseWriter; it records what reaches it.
 type wireWriter struct {
-	hdr    http.Header
-	status int
-	chunks []string
+	hdr     http.Header
+	sentHdr http.Header // the header map as it was when the status line went out
+	status  int
+	chunks  []string
 }
 
 func (w *wireWriter) Header() http.Header { return w.hdr }
 func (w *wireWriter) WriteHeader(c int) {
 	if w.status == 0 {
 		w.status = c
+		w.sentHdr = w.hdr.Clone()
 	}
 }
 func (w *wireWriter) Write(b []byte) (int, error) {
 	if w.status == 0 {
 		w.status = 200
+		w.sentHdr = w.hdr.Clone()
 	}
 	w.chunks = append(w.chunks, string(b))
 	return len(b), nil
